@@ -388,13 +388,26 @@ fn gen_c06(rng: &mut Rng, tier: &str, lines: &mut Vec<String>) {
             lines.push(rt_line(&mut n, "U", e, "", &[(s("a"), s("x")), (s("k"), m.to_string()), (s("z"), s("yy"))]));
         }
     }
-    // --- encoder error paths (outside the property's domain; correspondence only)
+    // --- encoder error paths: a character Shift-JIS cannot represent (e-acute, check mark, emoji) at the
+    // last / first / middle position and as the only character of a key, of the title, of a message.
+    // `serialize` may refuse; if it accepts, the oracle demands the round trip of what it accepted.
     for (f, e) in combos {
-        lines.push(rt_line(&mut n, f, e, "é", &[(s("k"), s("m"))]));
-        lines.push(rt_line(&mut n, f, e, "t", &[(s("ké"), s("m"))]));
-        lines.push(rt_line(&mut n, f, e, "t", &[(s("k"), s("mé\u{1F600}"))]));
+        for bad in ["\u{E9}", "\u{2713}", "\u{1F600}"] {
+            let shapes = [format!("Caf{}", bad), format!("{}afe", bad), format!("Ca{}fe", bad), bad.to_string()];
+            for sh in &shapes {
+                lines.push(rt_line(&mut n, f, e, "t", &[(sh.clone(), s("m"))]));
+                lines.push(rt_line(&mut n, f, e, "t", &[(s("a"), s("x")), (sh.clone(), s("m")), (s("z"), s("y"))]));
+                lines.push(rt_line(&mut n, f, e, sh, &[(s("k"), s("m"))]));
+                lines.push(rt_line(&mut n, f, e, "t", &[(s("k"), sh.clone())]));
+                lines.push(rt_line(&mut n, f, e, "t", &[(s("k"), s("m")), (s("l"), sh.clone())]));
+            }
+        }
+        lines.push(rt_line(&mut n, f, e, "t", &[(s("k"), s("m\u{E9}\u{1F600}"))]));
+        // NUL and the three lossy-but-encodable code points: outside the quantifier (oracle and
+        // correspondence skip the lossy ones; the model follows the code on NUL)
         lines.push(rt_line(&mut n, f, e, "t", &[(s("k"), s("a\0b")), (s("l"), s("c"))]));
         lines.push(rt_line(&mut n, f, e, "t\0u", &[(s("k"), s("ab"))]));
+        lines.push(rt_line(&mut n, f, e, "\u{A5}", &[(s("k\u{203E}"), s("m\u{2212}"))]));
     }
     // --- random archives
     let count = if thorough { 60000 } else { 10000 };
